@@ -148,34 +148,7 @@ contract(f"{RCF}::RequestCache.shutdown", "RequestCache.shutdown.gate-closed-bef
 # ---------------------------------------------------------------------------------------------------------------------
 # socket ownership of an exit socket: every transport that has been opened is owned by the socket object before the opening task can be
 # suspended (and therefore cancelled) again, and close() releases whatever is owned
-TRANSPORT = EFFECT("transport", close={}, sendto={}, is_closing={"returns": BOOL})
-OPENING = EFFECT("opening", __await__={"returns": TRANSPORT})
-
-
-def enable_and_start(sock):
-    """enable(), then the first run of the task it registered (asyncio starts it in the next loop iteration - A7)"""
-    sock.enable()
-    starts = calls("register_task")
-    if len(starts) != 1:
-        return None
-    return run_coro(starts[0].named["user_task"]())
-
-
-contract(f"{ES}::TunnelExitSocket.enable", "enable.opened-transports-are-owned-at-once",
-         vars={"self": ROUTING(f"{ES}::TunnelExitSocket", hop=HOP(), enabled=EXPR("False"), overlay=EFFECT("overlay"),
-                               transport_ipv4=EXPR("None"), transport_ipv6=EXPR("None"), queue=EXPR("deque(maxlen=10)"))},
-         call="enable_and_start(self)", raises=[],
-         stubs={f"{TM}::TaskManager.register_task": {"event": "register_task", "returns": FUTURE, "note": "A7: scheduling only; own contract above"},
-                f"{ES}::TunnelProtocol.open": {"event": "open", "returns": OPENING,
-                                               "note": "opens a UDP socket (asyncio/OS): the result is a transport that must be closed by its owner"}},
-         on_effect={"await:opening": [
-             # when the task is suspended on its k-th open, the k-1 transports opened before are already attributes of the socket
-             "[self.transport_ipv4, self.transport_ipv6].count(None) == 2 - (len(calls('open')) - 1)"]},
-         ensures=["self.enabled", "len(calls('open')) == 2", "self.transport_ipv4 is not None and self.transport_ipv6 is not None",
-                  "self.transport_ipv4 is not self.transport_ipv6"],
-         covers=["len(calls('await:opening')) == 2"],
-         note="a cancellation (unload, removal) arriving while the second socket is being opened finds the first one on the object, so "
-              "close() can release it")
+exit_socket_enable_contract()     # shared with C09 (contracts/tunnel_common.py)
 
 exit_socket_close_contract()     # shared with C09 (reclamation): contracts/tunnel_common.py
 
